@@ -53,6 +53,12 @@ def _worker(args):
 
 def run_jobs(jobs, seed=0, nproc=None):
     nproc = nproc or min(16, os.cpu_count() or 1)
+    # biggest first (more injected operations, longer horizon) so that the pool stays balanced
+    def weight(j):
+        sp = j.get('spec', {})
+        return -(sp.get('K', 0) * 1000 + len(sp.get('ops', [])) * sp.get('horizon', 1)) if sp else 0
+    order = sorted(range(len(jobs)), key=lambda i: (weight(jobs[i]), i))
+    jobs = [jobs[i] for i in order]
     args = [(j, seed) for j in jobs]
     if nproc <= 1 or len(jobs) <= 1:
         real = sys.stdout
